@@ -27,7 +27,7 @@ PROP = dict(
     design_ref="DESIGN.md 4.8",
     driver="c08",
     trace=dict(module="TraceRespond", cfg="TraceRespond.cfg"),
-    rule="case = one API (produces set declared on the operation or globally, held by the router in a given order, API default "
+    rule="case = one API (error responder assigned before NewContext / after it / replacing an earlier one; produces set declared on the operation or globally, held by the router in a given order, API default "
          "producer, registered producers, declared response codes, optional basic authentication with a realm); event = one "
          "request (entry point untyped handler / generated-style RouteInfo+Authorize+BindValidRequest+Respond, method, Accept, "
          "handler outcome value / nil / Responder / error of class API, plain, composite; unknown path, wrong method, "
